@@ -888,7 +888,8 @@ func ruleNameResolution(r *Run) {
 		return
 	}
 	var byJSON, byName ssa.Instruction
-	eachInstr(fn, func(in ssa.Instruction) {
+	// (the two lookups may sit in a helper of fieldPath: findField(fieldDescs, name))
+	p.eachInstrR(fn, func(in ssa.Instruction) {
 		c, ok := in.(ssa.CallInstruction)
 		if !ok || !c.Common().IsInvoke() {
 			return
